@@ -377,9 +377,21 @@ End Proofs.
 (* has_impl(Display) is true for a String-constrained newtype although no Display impl is emitted *)
 Lemma constrained_display_not_emitted : forall T f t n d i mx mn p,
   get_det T t = Some (DNewtype n d i (CString mx mn p)) ->
-  emits_display T f t = false /\ has_impl T (S f) t TDisplay = true.
+  emits_display T f t = false /\ has_impl T (S f) t TDisplay = true /\
+  api_has_impl T (S f) t TDisplay = false.
 Proof.
-  intros T f t n d i mx mn p E. split.
+  intros T f t n d i mx mn p E. split; [|split].
   - destruct f; cbn [emits_display]; auto. rewrite E. reflexivity.
   - cbn [has_impl]. rewrite E. reflexivity.
+  - unfold api_has_impl. rewrite E. reflexivity.
+Qed.
+
+(* for every other (type, trait) the facade is the internal answer *)
+Lemma api_has_impl_internal : forall T f t tr,
+  (forall n d i mx mn p, get_det T t = Some (DNewtype n d i (CString mx mn p)) -> tr <> TDisplay) ->
+  api_has_impl T f t tr = has_impl T f t tr.
+Proof.
+  intros T f t tr H. unfold api_has_impl.
+  destruct (get_det T t) as [d|] eqn:E; auto. destruct d; auto. destruct c; auto.
+  destruct tr; auto. exfalso. eapply H; eauto.
 Qed.
